@@ -2,14 +2,14 @@
 # store_mutant.sh <prop> <k> "<needs>" "<caught by>" : keep a confirmed seeded change under /verif/seeded/
 P=$1; K=$2; NEEDS=$3; CAUGHT=$4
 D=/verif/seeded/$P-m$K; mkdir -p $D
-cp /tmp/mut/$P/_out/patch$K.diff $D/patch.diff
-cp /tmp/mut/$P/_out/demo$K.rs $D/demo.rs
-cp /tmp/mut/$P/_out/notes$K.md $D/notes.md 2>/dev/null
+cp ${MUTROOT:-/tmp/mut}/$P/_out/patch$K.diff $D/patch.diff
+cp ${MUTROOT:-/tmp/mut}/$P/_out/demo$K.rs $D/demo.rs
+cp ${MUTROOT:-/tmp/mut}/$P/_out/notes$K.md $D/notes.md 2>/dev/null
 python3 - "$P" "$K" "$NEEDS" "$CAUGHT" <<'PY'
 import json, sys
 p,k,needs,caught=sys.argv[1:5]
 json.dump({"property":p,"breaks":p,"needs_to_manifest":needs,
- "confirmed":"tools/confirm_mutant.sh /tmp/mut/%s %s: demo passes on the clean tree, crate builds with and without default features with the change, the 33 unit tests + doc tests pass with the change, demo fails with the change"%(p,k),
+ "confirmed":"tools/confirm_mutant.sh ${MUTROOT:-/tmp/mut}/%s %s: demo passes on the clean tree, crate builds with and without default features with the change, the 33 unit tests + doc tests pass with the change, demo fails with the change"%(p,k),
  "run":"cp demo.rs <worktree>/tests/demo.rs && cargo test --offline --test demo  (fails with patch.diff applied, passes without)",
  "checks_run":"tools/try_mutant.sh seeded/%s-m%s/patch.diff <props> (git -C /repo apply; ./check <prop> --tier quick; git -C /repo checkout -- .)"%(p,k),
  "caught_by":caught}, open("/verif/seeded/%s-m%s/meta.json"%(p,k),"w"), indent=1)
